@@ -457,7 +457,12 @@ class FileDownloader(Resource, object):
 
         # TODO: for mutable files, use the roothash. For LIT, hash the data.
         # or maybe just use the URI for CHK and LIT.
-        rangeheader = req.getHeader('range')
+        try:
+            rangeheader = req.getHeader('range')
+        except UnicodeDecodeError:
+            # not even text: like any other Range header that cannot be
+            # parsed, it is ignored
+            rangeheader = None
         if rangeheader:
             ranges = self.parse_range_header(rangeheader)
 
